@@ -188,6 +188,7 @@ def race_access(m, rw, p, n, arg):
         return None
     sym_off = isinstance(p.off, Term)
     is_real = False
+    block = (rw == 'R' and arg is None)      # range read of a block copy: logged only
     if rw == 'R':
         t = res(arg) if arg is not None else None
         is_real = isinstance(t, FloatT)
@@ -196,6 +197,8 @@ def race_access(m, rw, p, n, arg):
     if not o.atomic:
         o.records.append(dict(rw=rw, obj=p.obj, objname=f'{ob.kind}:{ob.name[-60:]}', off=p.off, size=n, phase=o.phase, loop=o.cur_loop,
                               nass=len(m.assumptions), where=m.stack[-1] if m.stack else '', real=is_real))
+    if block:
+        return None
     if rw == 'R':
         if is_real and (sym_off or True):
             # value of a shared double: arbitrary (it cannot influence an address)
@@ -204,8 +207,9 @@ def race_access(m, rw, p, n, arg):
             m.syms[h.args[0]] = h
             return h
         return None
-    # stores: doubles at symbolic addresses are only logged; everything else is performed normally
-    if is_real and sym_off:
+    # stores at symbolic addresses are only logged (the abstract thread's one iteration must not disturb shared state that
+    # later loops read at concrete addresses); stores at concrete addresses are performed normally
+    if sym_off:
         return True
     return None
 
@@ -240,3 +244,89 @@ def serialise_path(m, path_id):
         out.append(dict(rw=r['rw'], obj=r['obj'], objname=r['objname'], off=off, size=r['size'], phase=r['phase'], loop=list(r['loop']) if r['loop'] else None,
                         nass=r['nass'], where=r['where']))
     return dict(path=path_id, decls=decls, defs=defs, assumptions=ass, records=out, loops={f'{k[0]}:{k[1]}': v for k, v in o.loops.items()})
+
+
+# --------------------------------------------------------------------------------------------- conflict queries
+import os, re
+
+
+def _rename(text, suffix):
+    return re.sub(r'\b(t\d+|it_r\d+_l\d+|hv\d+|[A-Za-z]+_-?\d+_-?\d+)\b', lambda mm: mm.group(1) + suffix, text)
+
+
+def race_queries(summary, job, workdir):
+    """conflict queries for one job: for every parallel region, every phase, every pair of path summaries (two iterations
+    of one loop, iterations of two loops of the same phase, replicated code) and every shared object: is there a pair of
+    accesses, at least one a write, to overlapping bytes?  sat = data race (the two iterations / threads are unordered)."""
+    out = []
+    paths = summary.get('omp_paths', [])
+    by_region = {}
+    for p in paths:
+        by_region.setdefault(p['region'], []).append(p)
+    qid = 0
+    for region, plist in sorted(by_region.items()):
+        for ia in range(len(plist)):
+            for ib in range(ia, len(plist)):
+                A, B = plist[ia], plist[ib]
+                same_loop = (A['loop'] == B['loop'])
+                # group records by (phase, obj)
+                ra = {}
+                for r in A['records']:
+                    ra.setdefault((r['phase'], r['obj']), []).append(r)
+                rb = {}
+                for r in B['records']:
+                    rb.setdefault((r['phase'], r['obj']), []).append(r)
+                for key in sorted(set(ra) & set(rb)):
+                    la, lb = ra[key], rb[key]
+                    if not any(r['rw'] == 'W' for r in la) and not any(r['rw'] == 'W' for r in lb):
+                        continue
+                    # the access belongs to the selected loop (symbolic iteration) or to replicated code (loop None)
+                    pairs = []
+                    for x in la:
+                        for y in lb:
+                            if x['rw'] != 'W' and y['rw'] != 'W':
+                                continue
+                            xl = tuple(x['loop']) if x['loop'] else None
+                            yl = tuple(y['loop']) if y['loop'] else None
+                            if xl is None and yl is None and A is B and x is y and x['rw'] == 'R':
+                                continue
+                            pairs.append((x, y, xl, yl))
+                    if not pairs:
+                        continue
+                    sfx = '__b'
+                    lines = ['(set-logic QF_LIA)'] if False else []
+                    names = []
+                    for (nm, srt) in A['decls']:
+                        lines.append(f'(declare-fun {nm} () {srt})')
+                        names.append(nm)
+                    for (nm, srt) in B['decls']:
+                        lines.append(f'(declare-fun {nm}{sfx} () {srt})')
+                        names.append(nm + sfx)
+                    lines += A['defs']
+                    lines += [_rename(dd, sfx) for dd in B['defs']]
+                    for a_ in A['assumptions']:
+                        lines.append(f'(assert {a_})')
+                    for b_ in B['assumptions']:
+                        lines.append(f'(assert {_rename(b_, sfx)})')
+                    disj = []
+                    for (x, y, xl, yl) in pairs:
+                        ox, oy = x['off'], _rename(y['off'], sfx)
+                        c = f'(and (< {ox} (+ {oy} {y["size"]})) (< {oy} (+ {ox} {x["size"]}))'
+                        if xl is not None and xl == yl:
+                            itn = f'it_r{xl[0]}_l{xl[1]}'
+                            c += f' (not (= {itn} {itn}{sfx}))'      # two DIFFERENT iterations of the same loop
+                        c += ')'
+                        disj.append(c)
+                    lines.append('(assert (or ' + ' '.join(disj) + '))' if len(disj) > 1 else f'(assert {disj[0]})')
+                    lines.append('(check-sat)')
+                    its = [n for n in names if n.startswith('it_r')]
+                    if its:
+                        lines.append('(get-value (' + ' '.join(its) + '))')
+                    f = os.path.join(workdir, f'race_r{region}_q{qid}.smt2')
+                    qid += 1
+                    open(f, 'w').write('\n'.join(lines) + '\n')
+                    objname = la[0]['objname']
+                    wa = sorted(set(x['where'][-50:] for x in la if x['rw'] == 'W'))[:2]
+                    out.append(dict(path=A['path'], kind='race', file=f, logic=None, hinted=False,
+                                    goals=[dict(tag=f'race:{objname}:phase{key[0]}:loops{A["loop"]}/{B["loop"]}', k=qid, kind='race', extra=dict(writers=wa, pairs=len(pairs)))]))
+    return out
